@@ -93,6 +93,23 @@ def task(item):
     return out
 
 
+def history_task(item):
+    """Call history in ONE fresh process: set up and solve combination A with the driver's statements (its operators stay alive
+    and have served their load vector), then set up, solve and check combination B on every leaf of the driver's initial mesh.
+    State leaking between operators / domains / problems shows up as a non-zero residual mean in B."""
+    (pa, da, ea), (pb, db, eb) = item
+    out = []
+    try:
+        keep = dict(setup(pa, da, ea, ()))  # noqa: F841  (keeps A's operators alive)
+    except Exception as ex:
+        return [('history-first-problem-raised', {'exc': repr(ex)}, 0, 0.0)]
+    nb = len(meshmc.build(meshmc.CFGS[driver.DOMAIN_CFG[db]], ()).leaf_elements)
+    for idx in range(nb):
+        r = task((pb, db, eb, (), idx))
+        out.append((r['viol'][0], r['viol'][1], r['n'], r['ratio']) if r['viol'] else (None, None, r['n'], r['ratio']))
+    return out
+
+
 PLAN = {
     # (combination filter, depth) - every leaf-set-distinct state up to the depth
     'quick': [(lambda p, d: p == 'Dirichlet' and d in ('UnitSquare', 'Circle'), 1), (lambda p, d: True, 0)],
@@ -152,12 +169,31 @@ def run(ctx):
             ctx.violation({'tag': tag, 'problem': it[0], 'domain': it[1], 'exact': it[2]},
                           '{} for {} on {} (switch {}) after history {}: {}'.format(tag, it[0], it[1], it[2], list(it[3]), v),
                           {'problem': it[0], 'domain': it[1], 'exact': it[2], 'history': [[list(r_), ax] for r_, ax in it[3]], 'idx': it[4]})
+    # call histories across problems / domains in one process (all ordered pairs of the combinations with initial data, plus
+    # one Dirichlet partner each)
+    m0 = [c for c in driver.COMBOS if c[0] in ('Smooth', 'Singular')]
+    hitems = [((a[0], a[1], False), (b[0], b[1], False)) for a in m0 for b in m0 if a != b]
+    hitems += [(('Dirichlet', 'UnitSquare', True), ('Dirichlet', 'LShape', False)), (('Dirichlet', 'Circle', False), ('MildSingular', 'PiSquare', True))]
+    if ctx.tier == 'quick':
+        hitems = [h for h in hitems if h[0][1] != h[1][1]]  # different domains only
+    resH = common.pmap_fresh(history_task, hitems, ctx.jobs)
+    nH = 0
+    for it, rows in zip(hitems, resH):
+        for tag, v, cnt, ratio in rows:
+            nH += cnt
+            k = '{}/{}/exact={}'.format(*it[1])
+            worst[k] = max(worst.get(k, 0.0), ratio)
+            if tag:
+                ctx.violation({'tag': 'history:' + tag, 'problem': it[1][0], 'domain': it[1][1], 'after': '{}/{}'.format(it[0][0], it[0][1])},
+                              '{} for {} on {} in a process that served {} on {} before: {}'.format(tag, it[1][0], it[1][1], it[0][0], it[0][1], v),
+                              {'problem': it[1][0], 'domain': it[1][1], 'exact': it[1][2], 'history': [], 'idx': 0, 'after': list(it[0])})
+    n += nH
     if n < 20:
         raise common.HarnessError('vacuous C03 run')
     cov = {'evaluations': n, 'distinct_nontrivial': n,
            'rule': 'one case = (problem, domain, switch, leaf-set-distinct mesh state, leaf); distinct by construction; meshes containing a leaf of aspect > 32 skipped',
            'meshes_per_combination': meshes, 'worst_ratio_abs_int_r_over_int_abs_r': {k: float('%.3g' % v) for k, v in sorted(worst.items())},
-           'elements_skipped_by_aspect': skipped, 'rule_points_per_cell': [len(XT), 'space: 5-point, 1-4 geometric levels per side chosen so that nodes stay >= 2e-5 from the cell ends'],
+           'elements_skipped_by_aspect': skipped, 'cross_problem_histories_in_fresh_processes': len(hitems), 'history_leaf_checks': nH, 'rule_points_per_cell': [len(XT), 'space: 5-point, 1-4 geometric levels per side chosen so that nodes stay >= 2e-5 from the cell ends'],
            'samples': [{'problem': items[0][0], 'domain': items[0][1], 'exact': items[0][2], 'history': list(items[0][3]), 'leaf_index': items[0][4]},
                        {'problem': items[-1][0], 'domain': items[-1][1], 'exact': items[-1][2], 'history': list(items[-1][3]), 'leaf_index': items[-1][4]}],
            'exhaustive': True}
